@@ -81,6 +81,7 @@ func rulesReadNCBI(c *Ctx, r *Report, rd, ex *ssa.Function) {
 	rulesScanErrFor(c, r, rd)
 	// B0 + GRD for both functions
 	rulesNoDroppedErrors(c, r, []*ssa.Function{rd, ex}, 3)
+	rulesNumWidth(c, r, "formats/smtext")
 	rulesGrdFuncs(c, r, []*ssa.Function{rd, ex}, 10, "bounds goals in ReadNCBI and extractSingleChar (row[0], valStrs[0], valStrs[1:], chars[i], s[0])")
 	// STAR
 	se := newSymb(ex)
